@@ -379,10 +379,16 @@ class SchedSuite(SyncSuite):
     def gen(self, rng, tier):
         ops = []
         for _ in range(self.n_cases[tier]):
-            tree = gen.disk_tree(rng, rng.choice([15, 30, 60]), 3, types=("dir", "file", "file", "symlink", "hardlink", "fifo"),
-                                 file_sizes=(0, 100, 32768, 40000, 70000, 100000), xattrs=False)
+            wide = rng.random() < 0.04
+            if wide:
+                # hundreds of multi-chunk files in flight at once (more than any internal queue or worker limit holds)
+                from .proto import flat_view
+                tree = flat_view(rng, rng.choice([350, 450]), (40000,))
+            else:
+                tree = gen.disk_tree(rng, rng.choice([15, 30, 60]), 3, types=("dir", "file", "file", "symlink", "hardlink", "fifo"),
+                                     file_sizes=(0, 100, 32768, 40000, 70000, 100000), xattrs=False)
             r = rng.random()
-            dst = [] if r < 0.4 else gen.mutate_disk_tree(rng, tree)
+            dst = [] if r < 0.4 or wide else gen.mutate_disk_tree(rng, tree)
             scheds = []
             for _ in range(self.K[tier]):
                 scheds.append({"cap": rng.choice([0, 0, 1, 4, 16, 64]), "delay": rng.choice([0, 0, 5, 50]), "window": rng.choice([0, 2, 10, 50]),
